@@ -1268,6 +1268,23 @@ func (c *cluster) unprotectedCompleteCurrentJob(state string) error {
 	return nil
 }
 
+// abortCurrentJob ends the running resize job as aborted. The result is
+// delivered to the goroutine waiting for the job (handleNodeAction), which
+// completes the job and lets the cluster leave the RESIZING state.
+func (c *cluster) abortCurrentJob() error {
+	c.mu.RLock()
+	isCoordinator, j := c.unprotectedIsCoordinator(), c.currentJob
+	c.mu.RUnlock()
+	if !isCoordinator {
+		return ErrNodeNotCoordinator
+	}
+	if j == nil {
+		return ErrResizeNotRunning
+	}
+	j.finish(resizeJobStateAborted)
+	return nil
+}
+
 // followResizeInstruction is run by any node that receives a ResizeInstruction.
 func (c *cluster) followResizeInstruction(instr *ResizeInstruction) error {
 	c.logger.Printf("follow resize instruction on %s", c.Node.ID)
@@ -1388,10 +1405,13 @@ func (c *cluster) followResizeInstruction(instr *ResizeInstruction) error {
 func (c *cluster) markResizeInstructionComplete(complete *ResizeInstructionComplete) error {
 
 	j := c.job(complete.JobID)
+	if j == nil {
+		return fmt.Errorf("resize job %d not found", complete.JobID)
+	}
 
 	// Abort the job if an error exists in the complete object.
 	if complete.Error != "" {
-		j.result <- resizeJobStateAborted
+		j.finish(resizeJobStateAborted)
 		return errors.New(complete.Error)
 	}
 
@@ -1406,7 +1426,7 @@ func (c *cluster) markResizeInstructionComplete(complete *ResizeInstructionCompl
 	j.IDs[complete.Node.ID] = true
 
 	if !j.nodesArePending() {
-		j.result <- resizeJobStateDone
+		j.finish(resizeJobStateDone)
 	}
 
 	return nil
@@ -1427,6 +1447,9 @@ type resizeJob struct {
 
 	action string
 	result chan string
+	// resultOnce guards result: the job's single receiver
+	// (handleNodeAction) takes exactly one value.
+	resultOnce sync.Once
 
 	mu    sync.RWMutex
 	state string
@@ -1462,9 +1485,18 @@ func newResizeJob(existingNodes []*Node, node *Node, action string) *resizeJob {
 		ID:     rand.Int63(),
 		IDs:    ids,
 		action: action,
-		result: make(chan string),
+		result: make(chan string, 1),
 		Logger: logger.NopLogger,
 	}
+}
+
+// finish reports the job's result to its (single) receiver. Only the first
+// call has an effect: duplicate, late or failed completion messages must not
+// block on a channel nobody reads any more.
+func (j *resizeJob) finish(state string) {
+	j.resultOnce.Do(func() {
+		j.result <- state
+	})
 }
 
 func (j *resizeJob) setState(state string) {
@@ -1484,14 +1516,14 @@ func (j *resizeJob) run() error {
 	// Job can be considered done in the case where it doesn't require any action.
 	if !j.nodesArePending() {
 		j.Logger.Printf("resizeJob contains no pending tasks; mark as done")
-		j.result <- resizeJobStateDone
+		j.finish(resizeJobStateDone)
 		return nil
 	}
 
 	j.Logger.Printf("distribute tasks for resizeJob")
 	err := j.distributeResizeInstructions()
 	if err != nil {
-		j.result <- resizeJobStateAborted
+		j.finish(resizeJobStateAborted)
 		return errors.Wrap(err, "distributing instructions")
 	}
 	return nil
